@@ -863,7 +863,7 @@ Definition c18_session (toks : list (list N)) : list (list N) :=
 
 (* ---------------- C16 ---------------- *)
 From Coq Require Import ZArith.
-From TT Require Import Model.Metrics.
+From TT Require Import Model.Metrics Generated.MetricsFacts.
 Open Scope N_scope.
 
 (* the harness script: sessions are numbered in opening order; every successful CONNECT adds a tunnel
@@ -901,6 +901,18 @@ Fixpoint c16_ops (w : world) (next_sess next_tun : N) (latest : list (N * N)) (o
 Definition c16_run (toks : list (list N)) : list (list N) :=
   match toks with
   | _ :: ops => c16_ops w0 0 0 [] ops
+  | _ => REJECT_TOK
+  end.
+
+(* C16: datagram counters. in: [drop_every; n; len].  out: [inbound counted; outbound counted; received by the peer; received by the client] *)
+Definition c16_udp (toks : list (list N)) : list (list N) :=
+  match toks with
+  | [k; n; len] :: _ =>
+    let idx := map N.of_nat (seq 1 (N.to_nat n)) in
+    let up := map (fun _ => (len, true)) idx in
+    let down := map (fun i => (len, if k =? 0 then true else negb (i mod k =? 0))) idx in
+    [[count_datagrams METRICS_COUNT_SENT_DATAGRAMS_ONLY up; count_datagrams METRICS_COUNT_SENT_DATAGRAMS_ONLY down;
+      delivered_datagram_bytes up; delivered_datagram_bytes down]]
   | _ => REJECT_TOK
   end.
 
